@@ -32,8 +32,10 @@ PLAN = [
     ("abmd", 6, 60, 12, 40),
     ("abf", 14, 160, 14, 40),
     ("meta", 14, 160, 14, 40),
+    ("eabf", 6, 60, 12, 40),
+    ("histrestraint", 3, 30, 10, 30),
     ("alb", 2, 10, 10, 20),
-    ("opes", 3, 20, 10, 20),
+    ("opes", 4, 30, 12, 24),
 ]
 
 
